@@ -45,8 +45,13 @@ def box : Pos → Pos → List Pos
   | m :: ms, s :: ss => (box ms ss).flatMap (row m (s - m).toNat)
 
 /-- special members, specified on values: every object holds a whole grid value or (moved-from) none;
-    copying duplicates the value, moving transfers it, swapping exchanges the two objects -/
-def specStep {α : Type} (st : List (Option (Grid α))) : RegOp → Option (List (Option (Grid α)))
+    copying duplicates the value, moving transfers it, swapping exchanges the two objects, default construction
+    yields the empty grid of the static size `n` -/
+def specStep {α : Type} (n : Nat) (st : List (Option (Grid α))) : RegOp → Option (List (Option (Grid α)))
+  | .defaultCtor d =>
+    match st[d]? with
+    | some _ => some (st.set d (some (Grid.empty n)))
+    | none => none
   | .copyCtor d s =>
     if d == s then none else
     match st[s]?, st[d]? with
@@ -74,9 +79,9 @@ def specStep {α : Type} (st : List (Option (Grid α))) : RegOp → Option (List
     | some x, some y => some ((st.set a y).set b x)
     | _, _ => none
 
-def specRun {α : Type} (st : List (Option (Grid α))) : List RegOp → Option (List (Option (Grid α)))
+def specRun {α : Type} (n : Nat) (st : List (Option (Grid α))) : List RegOp → Option (List (Option (Grid α)))
   | [] => some st
-  | op :: ops => (specStep st op).bind fun st' => specRun st' ops
+  | op :: ops => (specStep n st op).bind fun st' => specRun n st' ops
 
 /-- what an object is worth: its grid, or nothing once it has been moved from -/
 def absSlot {α : Type} (s : Slot α) : Option (Grid α) := if s.moved then none else some s.g
